@@ -23,10 +23,19 @@ func verifNewDocument(sw *spec.Swagger) *loads.Document {
 	if err != nil {
 		panic(verifAbort{"the loader rejects the harness document: " + err.Error()})
 	}
+	verifLastDoc = doc
 	return doc
 }
 
+// the analyser registered right after a document is that document's (as in the engine): it sees the
+// path-item parameters and the shared parameters of the document, not only the operations
+var verifLastDoc *loads.Document
+
 func verifNewAnalyzer(ops map[string]map[string]*spec.Operation) *analysis.Spec {
+	if doc := verifLastDoc; doc != nil {
+		verifLastDoc = nil
+		return analysis.New(doc.Spec())
+	}
 	sw := &spec.Swagger{}
 	verifFillPaths(sw, ops)
 	return analysis.New(sw)
